@@ -252,3 +252,26 @@ def compositions(n: int, maxparts: int, *, allow_zero: bool = False):
 def min_nchans(nbits: int) -> list[int]:
     """Two byte-aligned channel counts per depth."""
     return {1: [8, 16], 2: [4, 8], 4: [2, 6], 8: [1, 3], 16: [1, 3], 32: [1, 3]}[nbits]
+
+
+def parse_header_bytes(buf: bytes) -> tuple[list[tuple[str, object]], int]:
+    """Independent SIGPROC header parser: returns ([(key, value)...], header length)."""
+
+    def rs(pos: int) -> tuple[str, int]:
+        (n,) = struct.unpack_from("<I", buf, pos)
+        return buf[pos + 4 : pos + 4 + n].decode(), pos + 4 + n
+
+    key, pos = rs(0)
+    assert key == "HEADER_START", key
+    fields: list[tuple[str, object]] = []
+    while True:
+        key, pos = rs(pos)
+        if key == "HEADER_END":
+            return fields, pos
+        t = KEY_TYPES[key]
+        if t == "str":
+            v, pos = rs(pos)
+        else:
+            (v,) = struct.unpack_from("<" + t, buf, pos)
+            pos += struct.calcsize("<" + t)
+        fields.append((key, v))
